@@ -19,8 +19,10 @@
     `ext_bpoly_roundtrip` — bivariate polynomials, every monomial order, with or without ideal
     (exponents `< 2^64`, as `BValid` demands).
   * `upoly_additive_generic`, `prime_/bin_/ext_upoly_additive` — univariate additivity.
+  * `bpoly_additive_generic`, `prime_/bin_/ext_bpoly_additive` — bivariate additivity (in a
+    quotient ring under the hypothesis `hsum`).
   Still only stated (`C15.C15_full`, and `C15Full_remaining` below): the notational variations,
-  bivariate additivity.
+  bivariate additivity in quotient rings without `hsum`.
 -/
 import Algobra.Props.C15
 import Algobra.Props.C03
@@ -29,6 +31,7 @@ import Algobra.Proofs.ParseRTCoef
 import Algobra.Proofs.ParseRTBPoly
 import Algobra.Proofs.BPolyPerm
 import Algobra.Proofs.ParseRTAdd
+import Algobra.Proofs.ParseRTBAdd
 import Algobra.Proofs.ExtField
 
 namespace Algobra.C15
@@ -786,7 +789,176 @@ theorem ext_upoly_additive {K : Type} [Field K] (M : ExtField.Modulus h32 n g) (
 
 end ExtAdd
 
-/-! ### 8. what remains of `C15_full` -/
+/-! ### 8. additivity (bivariate)
+
+  Same accumulation argument (`ParseRT.bpoly_parse_add`): the parsed polynomial `b` denotes the sum;
+  cancelled exponent pairs are dropped by `ofMap`.  Without ideal, `b` is returned and is `Equal`
+  to `add f₁ f₂`.  In a quotient ring the parser returns `reduceIn R b`, and `b` is a permutation
+  of `add f₁ f₂` (`BPoly.reduceIn_perm`); the statement then needs that the model's reduction
+  leaves the sum `add f₁ f₂` alone up to `Equal` — hypothesis `hsum`.  (It does whenever no
+  exponent pair of the sum is divisible by a leading exponent of the ideal and the division fuel
+  `BPoly.divFuel` of the model suffices; this is not derived here from `BValid f₁`, `BValid f₂`.) -/
+
+theorem bpoly_additive_generic {α K : Type} [Field K] {F : FOps α} (L : Lawful F K)
+    (H : CoefRT F L.valid) (hz1 : F.toStr F.zero = "0") (hz2 : ¬ F.nTerms F.zero > 1)
+    (hown : ∀ w, F.ownVar = some w → AdmissibleName w)
+    {x y : String} (hx : AdmissibleName x) (hy : AdmissibleName y) (hxy : Unconfusable x y)
+    (hun : ∀ w, F.ownVar = some w → Unconfusable x w ∧ Unconfusable y w)
+    (ord : Order) (ideal : Option (List (BPoly α))) {f₁ f₂ : BPoly α}
+    (hf₁ : BPoly.WF L f₁) (hf₂ : BPoly.WF L f₂) (hb₁ : BPoly.Bounded f₁) (hb₂ : BPoly.Bounded f₂)
+    (hsum : ∀ gs, ideal = some gs → ∃ h,
+      BPoly.reduceIn { F := F, ord := ord, varNames := (x, y), ideal := ideal }
+        (BPoly.add F f₁ f₂) = some h ∧ BPoly.equal F h (BPoly.add F f₁ f₂) = true) :
+    ∃ g, BPoly.parse { F := F, ord := ord, varNames := (x, y), ideal := ideal }
+        (BPoly.toStr { F := F, ord := ord, varNames := (x, y), ideal := ideal } f₁ ++ " + " ++
+          BPoly.toStr { F := F, ord := ord, varNames := (x, y), ideal := ideal } f₂) = .ok (some g) ∧
+      BPoly.equal F g (BPoly.add F f₁ f₂) = true := by
+  have hdir : BPoly.directOK { F := F, ord := ord, varNames := (x, y), ideal := ideal } = true := by
+    unfold BPoly.directOK
+    simp only [(admissible_iff_simple x).1 hx, (admissible_iff_simple y).1 hy, Bool.and_self,
+      Bool.true_and]
+    cases hw : F.ownVar with
+    | none => rfl
+    | some w =>
+      simp only [(admissible_iff_simple w).1 (hown w hw), unconf_of_unconfusable (hun w hw).1,
+        unconf_of_unconfusable (hun w hw).2, Bool.and_self]
+  obtain ⟨b, hb, hbp, hparse⟩ := bpoly_parse_add
+    { F := F, ord := ord, varNames := (x, y), ideal := ideal } L H hz1 hz2
+    (bnames_of hx hy hxy hun) hdir hf₁ hf₂ hb₁ hb₂
+  have hsw := BPoly.WF_add L hf₁ hf₂.cv
+  have hsp := BPoly.toMv_add L hf₁ hf₂.cv
+  rw [hparse]
+  cases hid : ideal with
+  | none =>
+    refine ⟨b, by simp [BPoly.reduceIn], ?_⟩
+    exact (BPoly.equal_iff L hb hsw).2 (by rw [hbp, hsp])
+  | some gs =>
+    subst hid
+    obtain ⟨h, h1, h2⟩ := hsum gs rfl
+    have hperm : b.Perm (BPoly.add F f₁ f₂) := BPoly.perm_of_toMv_eq L hb hsw (by rw [hbp, hsp])
+    exact ⟨h, by rw [BPoly.reduceIn_perm _ (gs := gs) rfl hperm hb.1, h1], h2⟩
+
+/-- bivariate additivity over a prime field: every order; without ideal unconditionally, with an
+    ideal provided the model's reduction leaves the sum alone (`hsum`, see above) -/
+theorem prime_bpoly_additive {p : Nat} (hp : p.Prime) (h32 : p - 1 < 2 ^ 32) {x y : String}
+    (hx : AdmissibleName x) (hy : AdmissibleName y) (hxy : Unconfusable x y) (ord : Order)
+    (ideal : Option (List (BPoly Nat))) {f₁ f₂ : BPoly Nat}
+    (hf₁ : BValid (primeSpec p) { F := primeOps p, ord := ord, varNames := (x, y), ideal := ideal } f₁)
+    (hf₂ : BValid (primeSpec p) { F := primeOps p, ord := ord, varNames := (x, y), ideal := ideal } f₂)
+    (hsum : ∀ gs, ideal = some gs → ∃ h,
+      BPoly.reduceIn { F := primeOps p, ord := ord, varNames := (x, y), ideal := ideal }
+        (BPoly.add (primeOps p) f₁ f₂) = some h ∧
+      BPoly.equal (primeOps p) h (BPoly.add (primeOps p) f₁ f₂) = true) :
+    ∃ g, BPoly.parse { F := primeOps p, ord := ord, varNames := (x, y), ideal := ideal }
+        (BPoly.toStr { F := primeOps p, ord := ord, varNames := (x, y), ideal := ideal } f₁ ++ " + " ++
+          BPoly.toStr { F := primeOps p, ord := ord, varNames := (x, y), ideal := ideal } f₂) =
+            .ok (some g) ∧
+      BPoly.equal (primeOps p) g (BPoly.add (primeOps p) f₁ f₂) = true := by
+  have := Fact.mk hp
+  have hwf : ∀ {f : BPoly Nat}, BValid (primeSpec p)
+      { F := primeOps p, ord := ord, varNames := (x, y), ideal := ideal } f →
+      BPoly.WF (primeLawfulFact p h32) f := fun hf =>
+    ⟨hf.1, fun t ht => ⟨(hf.2.1 t ht).1,
+      ((primeLawfulFact p h32).isZero_false_iff _ (hf.2.1 t ht).1).1 (hf.2.1 t ht).2.1⟩⟩
+  exact bpoly_additive_generic (primeLawfulFact p h32) (prime_coefRT hp.two_le (by omega))
+    (by show toString (0 : Nat) = "0"; decide) (by show ¬ (1 > 1); omega)
+    (fun w hw => by cases hw) hx hy hxy (fun w hw => by cases hw) ord ideal (hwf hf₁) (hwf hf₂)
+    (fun t ht => (hf₁.2.1 t ht).2.2) (fun t ht => (hf₂.2.1 t ht).2.2) hsum
+
+/-- bivariate additivity over a binary field -/
+theorem bin_bpoly_additive {K : Type} [Field K] {n m : Nat} {w : String}
+    (L : Lawful (binOps n m w) K) (hL : ∀ a, L.valid a ↔ a < 2 ^ n) (hw : AdmissibleName w)
+    (hn : n < 64) {x y : String} (hx : AdmissibleName x) (hy : AdmissibleName y)
+    (hxy : Unconfusable x y) (hxw : Unconfusable x w) (hyw : Unconfusable y w) (ord : Order)
+    (ideal : Option (List (BPoly Nat))) {f₁ f₂ : BPoly Nat}
+    (hf₁ : BValid (binSpec n m w) { F := binOps n m w, ord := ord, varNames := (x, y), ideal := ideal } f₁)
+    (hf₂ : BValid (binSpec n m w) { F := binOps n m w, ord := ord, varNames := (x, y), ideal := ideal } f₂)
+    (hsum : ∀ gs, ideal = some gs → ∃ h,
+      BPoly.reduceIn { F := binOps n m w, ord := ord, varNames := (x, y), ideal := ideal }
+        (BPoly.add (binOps n m w) f₁ f₂) = some h ∧
+      BPoly.equal (binOps n m w) h (BPoly.add (binOps n m w) f₁ f₂) = true) :
+    ∃ g, BPoly.parse { F := binOps n m w, ord := ord, varNames := (x, y), ideal := ideal }
+        (BPoly.toStr { F := binOps n m w, ord := ord, varNames := (x, y), ideal := ideal } f₁ ++ " + " ++
+          BPoly.toStr { F := binOps n m w, ord := ord, varNames := (x, y), ideal := ideal } f₂) =
+            .ok (some g) ∧
+      BPoly.equal (binOps n m w) g (BPoly.add (binOps n m w) f₁ f₂) = true := by
+  have hwf : ∀ {f : BPoly Nat}, BValid (binSpec n m w)
+      { F := binOps n m w, ord := ord, varNames := (x, y), ideal := ideal } f → BPoly.WF L f :=
+    fun hf => ⟨hf.1, fun t ht => ⟨(hL _).2 (hf.2.1 t ht).1,
+      (L.isZero_false_iff _ ((hL _).2 (hf.2.1 t ht).1)).1 (hf.2.1 t ht).2.1⟩⟩
+  have hown : ∀ w', (binOps n m w).ownVar = some w' → w' = w := by
+    intro w' h; injection h with e; exact e.symm
+  exact bpoly_additive_generic L ((bin_coefRT hw m hn).mono fun a ha => (hL a).1 ha) rfl
+    (by show ¬ popCount 0 > 1; rw [ParseRT.popCount_zero]; omega)
+    (fun w' h => by rw [hown w' h]; exact hw) hx hy hxy
+    (fun w' h => by rw [hown w' h]; exact ⟨hxw, hyw⟩) ord ideal (hwf hf₁) (hwf hf₂)
+    (fun t ht => (hf₁.2.1 t ht).2.2) (fun t ht => (hf₂.2.1 t ht).2.2) hsum
+
+section ExtBAdd
+variable {p : Nat} [Fact p.Prime] {h32 : p - 1 < 2 ^ 32} {n : Nat} {g : List Nat}
+
+/-- bivariate additivity over an extension field -/
+theorem ext_bpoly_additive {K : Type} [Field K] (M : ExtField.Modulus h32 n g) (hn : n ≤ 2 ^ 63)
+    (L : Lawful (extOps p n g) K) (hL : ∀ a, L.valid a ↔ ExtField.Valid h32 n a)
+    {x y : String} (hx : AdmissibleName x) (hy : AdmissibleName y) (hxy : Unconfusable x y)
+    (hxw : Unconfusable x "a") (hyw : Unconfusable y "a") (ord : Order)
+    (ideal : Option (List (BPoly (UPoly Nat)))) {f₁ f₂ : BPoly (UPoly Nat)}
+    (hf₁ : BValid (extSpec p n g) { F := extOps p n g, ord := ord, varNames := (x, y), ideal := ideal } f₁)
+    (hf₂ : BValid (extSpec p n g) { F := extOps p n g, ord := ord, varNames := (x, y), ideal := ideal } f₂)
+    (hsum : ∀ gs, ideal = some gs → ∃ h,
+      BPoly.reduceIn { F := extOps p n g, ord := ord, varNames := (x, y), ideal := ideal }
+        (BPoly.add (extOps p n g) f₁ f₂) = some h ∧
+      BPoly.equal (extOps p n g) h (BPoly.add (extOps p n g) f₁ f₂) = true) :
+    ∃ g', BPoly.parse { F := extOps p n g, ord := ord, varNames := (x, y), ideal := ideal }
+        (BPoly.toStr { F := extOps p n g, ord := ord, varNames := (x, y), ideal := ideal } f₁ ++ " + " ++
+          BPoly.toStr { F := extOps p n g, ord := ord, varNames := (x, y), ideal := ideal } f₂) =
+            .ok (some g') ∧
+      BPoly.equal (extOps p n g) g' (BPoly.add (extOps p n g) f₁ f₂) = true := by
+  have hv : ∀ {f : BPoly (UPoly Nat)}, BValid (extSpec p n g)
+      { F := extOps p n g, ord := ord, varNames := (x, y), ideal := ideal } f →
+      ∀ t ∈ f, L.valid t.2 := fun hf t ht =>
+    (hL _).2 (by have := (hf.2.1 t ht).1; exact ⟨⟨this.2.2, this.1⟩, this.2.1⟩)
+  have hwf : ∀ {f : BPoly (UPoly Nat)}, BValid (extSpec p n g)
+      { F := extOps p n g, ord := ord, varNames := (x, y), ideal := ideal } f → BPoly.WF L f :=
+    fun hf => ⟨hf.1, fun t ht => ⟨hv hf t ht,
+      (L.isZero_false_iff _ (hv hf t ht)).1 (hf.2.1 t ht).2.1⟩⟩
+  have hown : ∀ w', (extOps p n g).ownVar = some w' → w' = "a" := by
+    intro w' h; injection h with e; exact e.symm
+  exact bpoly_additive_generic L ((ext_coefRT M hn).mono fun a ha => (hL a).1 ha)
+    (by show UPoly.toStr (primeOps p) "a" [0] = "0"; rfl)
+    (by show ¬ UPoly.nTerms (primeOps p) [0] > 1; simp [UPoly.nTerms, UPoly.isZero, primeOps])
+    (fun w' h => by rw [hown w' h]; exact ⟨'a', [], by decide, by decide, by decide⟩) hx hy hxy
+    (fun w' h => by rw [hown w' h]; exact ⟨hxw, hyw⟩) ord ideal (hwf hf₁) (hwf hf₂)
+    (fun t ht => (hf₁.2.1 t ht).2.2) (fun t ht => (hf₂.2.1 t ht).2.2) hsum
+
+end ExtBAdd
+
+-- non-vacuity: (3X^2Y + X + 5) + (4X^2Y + 2Y) = X + 2Y + 5 in F_7[X,Y]: X^2Y cancels
+example : ∃ g, BPoly.parse { F := primeOps 7, ord := ⟨.lex, true⟩, varNames := ("X", "Y"), ideal := none }
+      "3X^2Y + X + 5 + 4X^2Y + 2Y" = .ok (some g) ∧
+    BPoly.equal (primeOps 7) g [((0, 0), 5), ((1, 0), 1), ((0, 1), 2)] = true := by
+  have h := prime_bpoly_additive (p := 7) (by norm_num) (by norm_num) (x := "X") (y := "Y")
+    ⟨'X', [], by decide, by decide, by decide⟩ ⟨'Y', [], by decide, by decide, by decide⟩
+    (by unfold Unconfusable; decide) ⟨.lex, true⟩ none
+    (f₁ := [((2, 1), 3), ((0, 0), 5), ((1, 0), 1)]) (f₂ := [((2, 1), 4), ((0, 1), 2)])
+    ⟨by decide, by
+      intro t ht
+      have : t = ((2, 1), 3) ∨ t = ((0, 0), 5) ∨ t = ((1, 0), 1) := by simpa using ht
+      rcases this with rfl | rfl | rfl <;>
+        exact ⟨by show (_ : Nat) < 7; decide, by decide, by decide, by decide⟩, rfl⟩
+    ⟨by decide, by
+      intro t ht
+      have : t = ((2, 1), 4) ∨ t = ((0, 1), 2) := by simpa using ht
+      rcases this with rfl | rfl <;>
+        exact ⟨by show (_ : Nat) < 7; decide, by decide, by decide, by decide⟩, rfl⟩
+    (fun gs h => by cases h)
+  have e1 : BPoly.toStr { F := primeOps 7, ord := ⟨.lex, true⟩, varNames := ("X", "Y"), ideal := none } [((2, 1), 3), ((0, 0), 5), ((1, 0), 1)] ++ " + " ++ BPoly.toStr { F := primeOps 7, ord := ⟨.lex, true⟩, varNames := ("X", "Y"), ideal := none } [((2, 1), 4), ((0, 1), 2)] = "3X^2Y + X + 5 + 4X^2Y + 2Y" := by
+    decide +kernel
+  have e2 : BPoly.add (primeOps 7) [((2, 1), 3), ((0, 0), 5), ((1, 0), 1)] [((2, 1), 4), ((0, 1), 2)] =
+      [((0, 0), 5), ((1, 0), 1), ((0, 1), 2)] := by decide +kernel
+  rwa [e1, e2] at h
+
+/-! ### 9. what remains of `C15_full` -/
 
 /-- `UPolyRoundTrip` of `Props/C15.lean` with the bound on the number of coefficients that the
     exponent reader (`strconv.ParseInt`) imposes: an exponent `≥ 2^63` is a range error, so without
@@ -801,21 +973,57 @@ def UPolyRoundTripB {α : Type} (S : FieldSpec α) : Prop :=
       ∃ g, UPoly.parse R (UPoly.toStr S.F v f₁ ++ " + " ++ UPoly.toStr S.F v f₂) = .ok (some g) ∧
         UPoly.equal S.F g (UPoly.add S.F f₁ f₂) = true)
 
-/-- NOT PROVED. What is still only validated by the correspondence run.  Proved of the statement
-    below, for all three field families, every ring/quotient ring, every monomial order, every
-    ideal: the instance `N = {}` (the printers' own notation) of the first clauses of
-    `UPolyRoundTripB` and `BPolyRoundTrip` (`prime_/bin_/ext_upoly_roundtrip_beq`,
-    `prime_/bin_/ext_bpoly_roundtrip`), and the second clause (additivity) of `UPolyRoundTripB`
-    (`prime_/bin_/ext_upoly_additive`); corollaries at the fields `Define` returns are in
-    `Props/C15FullDefine.lean`.  Missing: the other notations `N` (`*`, no `^`, blanks around
-    `+`, letter case, `y` before `x`) for univariate and bivariate polynomials, and bivariate
-    additivity (second clause of `BPolyRoundTrip`). -/
+/-- clause 1 of `UPolyRoundTripB`: all notations -/
+def UNotations {α : Type} (S : FieldSpec α) : Prop :=
+  ∀ (v : String) (mod : Option (UPoly α)), AdmissibleName v →
+    (∀ w, S.ownVar = some w → Unconfusable v w) → ModOK S mod →
+    ∀ f, UValid S { F := S.F, varName := v, modulus := mod } f → f.length ≤ 2 ^ 63 →
+      ∀ N : Notation, N.ok →
+      ∃ g, UPoly.parse { F := S.F, varName := v, modulus := mod } (uToStrN N S.F v f) = .ok (some g) ∧
+        UPoly.equal S.F f g = true
+
+/-- clause 1 of `BPolyRoundTrip`: all notations -/
+def BNotations {α : Type} (S : FieldSpec α) : Prop :=
+  ∀ (x y : String) (ord : Order) (ideal : Option (List (BPoly α))),
+    AdmissibleName x → AdmissibleName y → Unconfusable x y →
+    (∀ w, S.ownVar = some w → Unconfusable x w ∧ Unconfusable y w) →
+    ∀ f, BValid S { F := S.F, ord := ord, varNames := (x, y), ideal := ideal } f →
+      ∀ N : Notation, N.ok →
+      ∃ g, BPoly.parse { F := S.F, ord := ord, varNames := (x, y), ideal := ideal }
+          (bToStrN N { F := S.F, ord := ord, varNames := (x, y), ideal := ideal } f) = .ok (some g) ∧
+        BPoly.equal S.F f g = true
+
+/-- clause 2 of `BPolyRoundTrip` in a quotient ring -/
+def BAddQuot {α : Type} (S : FieldSpec α) : Prop :=
+  ∀ (x y : String) (ord : Order) (gs : List (BPoly α)),
+    AdmissibleName x → AdmissibleName y → Unconfusable x y →
+    (∀ w, S.ownVar = some w → Unconfusable x w ∧ Unconfusable y w) →
+    ∀ f₁ f₂, BValid S { F := S.F, ord := ord, varNames := (x, y), ideal := some gs } f₁ →
+      BValid S { F := S.F, ord := ord, varNames := (x, y), ideal := some gs } f₂ →
+      ∃ g, BPoly.parse { F := S.F, ord := ord, varNames := (x, y), ideal := some gs }
+          (BPoly.toStr { F := S.F, ord := ord, varNames := (x, y), ideal := some gs } f₁ ++ " + " ++
+            BPoly.toStr { F := S.F, ord := ord, varNames := (x, y), ideal := some gs } f₂) =
+              .ok (some g) ∧
+        BPoly.equal S.F g (BPoly.add S.F f₁ f₂) = true
+
+/-- NOT PROVED. What is still only validated by the correspondence run.  Everything else of
+    `C15_full` (with the bounds of `UPolyRoundTripB`) is proved for all three field families:
+    element round trips; clause 1 of `UPolyRoundTripB`/`BPolyRoundTrip` for `N = {}` (every
+    ring/quotient ring, order, ideal); univariate additivity; bivariate additivity without ideal
+    (`prime_/bin_/ext_bpoly_additive` with `ideal = none`).  Remaining:
+    * `UNotations`, `BNotations` for `N ≠ {}` (`*`, no `^`, blanks around `+`, letter case, `y`
+      before `x`);
+    * `BAddQuot`: bivariate additivity in a quotient ring is proved only under the extra hypothesis
+      `hsum` of `*_bpoly_additive` (the model's reduction returns something `Equal` to
+      `add f₁ f₂` when applied to it); deriving `hsum` from `BValid f₁`, `BValid f₂` needs an
+      analysis of `quoRemLoop` on inputs without divisible exponent pairs, an admissible order, and
+      a bound `f₁.length + f₂.length < BPoly.divFuel` for the model's division fuel. -/
 def C15Full_remaining : Prop :=
   (∀ p, Define.prime p = .ok (.prime p) →
-    UPolyRoundTripB (primeSpec p) ∧ BPolyRoundTrip (primeSpec p)) ∧
+    UNotations (primeSpec p) ∧ BNotations (primeSpec p) ∧ BAddQuot (primeSpec p)) ∧
   (∀ q n m v, Define.bin Gen.dbText q = .ok (.bin n m) → AdmissibleName v →
-    UPolyRoundTripB (binSpec n m v) ∧ BPolyRoundTrip (binSpec n m v)) ∧
+    UNotations (binSpec n m v) ∧ BNotations (binSpec n m v) ∧ BAddQuot (binSpec n m v)) ∧
   (∀ q p n g, Define.ext Gen.dbText q = .ok (.ext p n g) →
-    UPolyRoundTripB (extSpec p n g) ∧ BPolyRoundTrip (extSpec p n g))
+    UNotations (extSpec p n g) ∧ BNotations (extSpec p n g) ∧ BAddQuot (extSpec p n g))
 
 end Algobra.C15
